@@ -703,7 +703,9 @@ theorem step_iWrite (hy : Hyps P offered) (hoff : offered s.data1) {fd : Nat}
       apply writeAt_zero_cover
       rcases hinv.2 _ _ _ (by simp) h3 h4 with h | ⟨c, t, _, h⟩
       · simp [h]
-      · rw [h, hy.encLen, hy.encLen]; exact Nat.le_refl _
+      · have e1 := hy.encLen id c t ‹offered c›
+        have e2 := hy.encLen id s.data1 now hoff
+        rw [h, e1]; simp only [putOut, Src.size]; rw [e2]; exact Nat.le_refl _
     simp only [next, Gen.CachePut.indexTruncAfterWrite, if_true, PutPost, LocalPut, hcover]
     refine ⟨inv_setFd _ _ (inv_setData _ (hinv.exc _) h3 h4 (fileOK_entry hoff)),
       { o with off := o.off + (P.enc id (putOut P s) s.size now).length },
